@@ -1,0 +1,64 @@
+//! Verification hook, only compiled with `--cfg parol_verif`.
+//!
+//! When the environment variable `PAROL_LS_VERIF_SCHEDULE` holds a comma separated list of
+//! sections (`handle:1,run:1,ok:1,pub:1,...`), the marked sections of the server (handling of a
+//! document notification, sending its synchronous result, running and publishing a background
+//! analysis) are executed in exactly that order: a section blocks until all sections before it
+//! have ended. Without the variable the gates do nothing.
+use std::sync::{Condvar, Mutex, OnceLock};
+
+struct Gate {
+    schedule: Vec<String>,
+    next: Mutex<usize>,
+    turn: Condvar,
+}
+
+fn gate() -> Option<&'static Gate> {
+    static GATE: OnceLock<Option<Gate>> = OnceLock::new();
+    GATE.get_or_init(|| {
+        std::env::var("PAROL_LS_VERIF_SCHEDULE").ok().map(|s| Gate {
+            schedule: s
+                .split(',')
+                .map(|p| p.trim().to_string())
+                .filter(|p| !p.is_empty())
+                .collect(),
+            next: Mutex::new(0),
+            turn: Condvar::new(),
+        })
+    })
+    .as_ref()
+}
+
+/// A section of the schedule; ends when dropped.
+pub(crate) struct Section(Option<String>);
+
+/// Blocks until it is the turn of section `kind:version`.
+pub(crate) fn enter(kind: &str, version: i32) -> Section {
+    let Some(g) = gate() else {
+        return Section(None);
+    };
+    let point = format!("{kind}:{version}");
+    let mut next = g.next.lock().unwrap();
+    loop {
+        if *next >= g.schedule.len() {
+            // schedule exhausted: run freely
+            return Section(None);
+        }
+        if g.schedule[*next] == point {
+            eprintln!("VERIF-GATE begin {point}");
+            return Section(Some(point));
+        }
+        next = g.turn.wait(next).unwrap();
+    }
+}
+
+impl Drop for Section {
+    fn drop(&mut self) {
+        if let (Some(point), Some(g)) = (self.0.take(), gate()) {
+            let mut next = g.next.lock().unwrap();
+            *next += 1;
+            eprintln!("VERIF-GATE end {point} {}/{}", *next, g.schedule.len());
+            g.turn.notify_all();
+        }
+    }
+}
